@@ -22,7 +22,9 @@ def describe_real(x):
         return ('exc', type(x).__name__)
     if sp.issparse(x):
         return ('sparse', x.format, str(x.dtype), np.asarray(x.toarray()).tolist())
-    if isinstance(x, (np.ndarray, np.matrix)):
+    if isinstance(x, np.matrix):
+        return ('matrix', str(x.dtype), np.asarray(x).tolist())
+    if isinstance(x, np.ndarray):
         return ('dense', str(x.dtype), np.asarray(x).tolist())
     if isinstance(x, (bool, np.bool_)):
         return ('bool', bool(x))
@@ -38,6 +40,8 @@ def describe_sym(x):
         return ('exc', type(x).__name__)
     if isinstance(x, sparse.SymSp):
         return ('sparse', x.format, str(x.dtype), np.asarray(x.toarray().typed()).tolist())
+    if type(x).__name__ == 'SymMatrix':
+        return ('matrix', str(x.dtype), np.asarray(x.view_plain().typed()).tolist())
     if isinstance(x, SArr):
         return ('dense', str(x.dtype), np.asarray(x.typed()).tolist())
     if isinstance(x, np.ndarray):
@@ -128,6 +132,17 @@ def ops():
     add('A<0', lambda M, A: A < 0)
     add('A>2', lambda M, A: A > 2)
     add('toarray', lambda M, A: A.toarray())
+    add('todense', lambda M, A: A.todense())
+    add('todense()[1]', lambda M, A: A.todense()[1])
+    add('todense()[1, 0]', lambda M, A: A.todense()[1, 0])
+    add('todense().sum(axis=1)', lambda M, A: A.todense().sum(axis=1))
+    add('todense().sum(1)[0] - todense()[0, 0]', lambda M, A: A.todense().sum(axis=1)[0] - A.todense()[0, 0])
+    add('np.array(todense())', lambda M, A: M.array(A.todense()))
+    add('np.asarray(sum1).flatten()', lambda M, A: M.asarray(A.sum(axis=1)).flatten())
+    add('todense() + todense().T', lambda M, A: A.todense() + A.todense().T)
+    add('2 * todense()', lambda M, A: 2 * A.todense())
+    add('todense() * todense()', lambda M, A: A.todense() * A.todense())
+    add('assign (1,1) matrix into a cell', lambda M, A: M.assign_cell(A))
     add('shape', lambda M, A: A.shape == tuple(A.toarray().shape))
     add('nnz', lambda M, A: A.nnz)
     add('reshape same', lambda M, A: A.reshape(A.shape[0], A.shape[1]))
@@ -168,6 +183,14 @@ class RealNS:
     zeros = staticmethod(np.zeros)
     eye = staticmethod(np.eye)
     where = staticmethod(np.where)
+    array = staticmethod(np.array)
+    asarray = staticmethod(np.asarray)
+
+    @staticmethod
+    def assign_cell(A):
+        X = A.todense().copy().astype(float)
+        X[0, 0] = X.sum(axis=1)[0] / 2
+        return X
     shares = staticmethod(shares_real)
     spsolve = staticmethod(spl.spsolve)
 
@@ -200,6 +223,14 @@ class SymNS:
     zeros = staticmethod(lambda n: funcs.np_zeros(n))
     eye = staticmethod(lambda n: funcs.np_eye(n))
     where = staticmethod(funcs.np_where)
+    array = staticmethod(funcs.np_array)
+    asarray = staticmethod(funcs.np_asarray)
+
+    @staticmethod
+    def assign_cell(A):
+        X = A.todense().copy().astype(float)
+        X[0, 0] = X.sum(axis=1)[0] / 2
+        return X
     shares = staticmethod(shares_sym)
     spsolve = staticmethod(stubs.sym_spsolve)
 
